@@ -134,6 +134,31 @@ PROPS['C07'] = dict(
     scan_no_override=True,
 )
 
+PROPS['C15'] = dict(
+    category='other',
+    technique='Kani contracts on the real map-level helpers: loop-free full-domain harnesses (sample defaults, beat-length scaling) and a bounded harness for break post-processing',
+    level_text='SamplePoint::apply proved (Kani, every i32 / bank value: defaults taken only when unspecified, file samples normalised, unsafe suffix guard); get_precision_adjusted_beat_len: domain facts proved for every f64 pair, the clamp(100/sv, 10, M)/100 scaling checked on listed values (bounded); post_process_breaks bounded stand-in (3 objects x 2 breaks, every finite time)',
+    level_note='not decided: shift invariance (a 2-safety property over two runs of the whole decoder through dec2flt), stable sort of the object list, the velocity / duration formulas inside From<HitObjectsState> (need curve computation), node sample lookup times',
+    verus=[], kani=['c15.kc', 'c15_sample.kc'],
+    kani_functions=['src/section/hit_objects/decode.rs :: fn get_precision_adjusted_beat_len', 'src/section/hit_objects/decode.rs :: impl HitObjectsState :: fn post_process_breaks',
+                    'src/section/timing_points/control_points/sample.rs :: impl SamplePoint :: fn apply'],
+    explanation='see level_text; per-obligation statements in coverage.samples[].states',
+    trusted_base=COMMON_TRUST, assumptions=['objects sorted by start time and breaks ordered by end time when post_process_breaks runs (the sort two lines earlier is std)'],
+    not_decided=['shift invariance', 'From<HitObjectsState> for HitObjects body (sort stability, velocity, duration, 5 ms lookup leniency)'],
+)
+
+PROPS['C11'] = dict(
+    category='other',
+    technique='Kani contracts on the record parsers: key/value split and comment stripping on listed text templates against an independent reference; value conversions on templates with every numeric field replaced by "any value or an error"; key tables enumerated exhaustively',
+    level_text='bounded stand-in for the text layer (listed templates for KeyValue::parse, trim_comment, each section record kind), with every numeric value / rejection covered per template; section key tables proved inverse (from_str(as_str(k)) == k) for every variant; numeric limit checks proved (Kani, full domain) under C01',
+    level_note='assumed: std text->number conversion replaced by nondeterministic results; text shapes outside the templates not decided; "last valid occurrence wins" follows from the per-record contracts (each handler assigns its field or leaves the state unchanged) and is not run as a sequence',
+    verus=[], kani=['support.kc', 'c11_kv.kc'],
+    kani_functions=['src/util/key_value.rs :: impl KeyValue :: fn parse', 'src/util/str_ext.rs :: impl StrExt for str :: fn trim_comment'],
+    explanation='see level_text; per-obligation statements in coverage.samples[].states',
+    trusted_base=COMMON_TRUST + ['contracts/support.kc stand-ins for std FromStr of f64/f32/i32/u8'], assumptions=[],
+    not_decided=['digit strings -> numbers', 'record sequences end-to-end'],
+)
+
 NOT_APPLICABLE = {
     'C02': 'whole-text round trip through core::fmt float printing and dec2flt: no contract on one function links encode output to decode input, and neither verifier executes fmt/parse on symbolic values; the expressible codec-pair lemmas are decided under C11/C13/C14/C04',
     'C03': 'same as C02 (edited values travel through write! and str::parse); the first-colon rule it singles out is a contract on KeyValue::parse decided under C11',
